@@ -47,12 +47,13 @@ def invalid_cond(P, n):
     return SymBool(pipeline.validity_regions(c)[1])
 
 
-def body(ctx, conv, shape, bounds, as_coords, nan_cells=None, mesh_opts=None, descending=False, extent=True, bounds_first=False, coord_dtype=None):
+def body(ctx, conv, shape, bounds, as_coords, nan_cells=None, mesh_opts=None, descending=False, extent=True, bounds_first=False, coord_dtype=None, bounds_coords=False):
     snap_holder = [coord_dtype]
+    pipeline.builders.BOUNDS_AS_COORDS = bounds_coords
     try:
         return _body(ctx, conv, shape, bounds, as_coords, nan_cells, mesh_opts, descending, extent, bounds_first, snap_holder)
     finally:
-        pass
+        pipeline.builders.BOUNDS_AS_COORDS = False
 
 
 def _body(ctx, conv, shape, bounds, as_coords, nan_cells, mesh_opts, descending, extent, bounds_first, snap_holder):
@@ -211,10 +212,14 @@ def cases(tier):
     if not q:
         cfgs += [('cf2d', (2, 3), 'none', True, None, False, True), ('cf2d', (2, 2), 'stored', True, None, False, True),
                  ('shoc_simple', (1, 3), 'none', True, None, False, True), ('cf2d', (1, 4), 'none', True, None, False, False)]
-    for conv, shape, bounds, as_coords, nan_cells, desc, bf in cfgs:
+    cfgs = [c + (False,) for c in cfgs]
+    # stored bounds held as xarray coordinates
+    cfgs += [('cf2d', (2, 2), 'stored', True, None, False, False, True), ('cf1d', (2, 3), 'stored', True, (), False, False, True),
+             ('shoc_simple', (1, 2), 'stored', False, None, False, True, True)]
+    for conv, shape, bounds, as_coords, nan_cells, desc, bf, bc in cfgs:
         nm = 'all' if nan_cells is None else len(nan_cells)
-        base = f'{conv}:{shape[0]}x{shape[1]}:{bounds}:{"coords" if as_coords else "vars"}:nan{nm}:{"desc" if desc else "asc"}' + (':bounds-first' if bf else '')
-        kw = dict(conv=conv, shape=shape, bounds=bounds, as_coords=as_coords, nan_cells=nan_cells, descending=desc, bounds_first=bf)
+        base = f'{conv}:{shape[0]}x{shape[1]}:{bounds}:{"coords" if as_coords else "vars"}:nan{nm}:{"desc" if desc else "asc"}' + (':bounds-first' if bf else '') + (':bounds-as-coordinates' if bc else '')
+        kw = dict(conv=conv, shape=shape, bounds=bounds, as_coords=as_coords, nan_cells=nan_cells, descending=desc, bounds_first=bf, bounds_coords=bc)
         if conv == 'cf1d':
             # rectangles: validity is exactly "non-zero width and height" - linear, so one pass does everything
             yield Case(base + ':validity+extent', body, dict(kw, extent=True), patches=PM['rect'], max_paths=20000, split=32)
@@ -233,7 +238,8 @@ def cases(tier):
             yield Case(base + ':extent', body, dict(kw, extent=True), patches=PM['all'], max_paths=20000, split=32)
     meshes = ['tq', 'tri'] if q else ['tq', 'tri', 'tqp', 'fan']
     for mesh in meshes:
-        for mo in (dict(), dict(start_index=1, fill='attr'), dict(transposed=True, coords_as_coords=False)):
+        for mo in (dict(), dict(start_index=1, fill='attr'), dict(transposed=True, coords_as_coords=False),
+                   dict(start_index=1, fill='attr', fill_value=0), dict(start_index=1, fill='attr', fill_value=0, dtype='uint16')):
             if mesh in ('fan', 'tri') and mo.get('fill') == 'attr':
                 mo = dict(mo, fill='none')
             tag = '+'.join(f'{k}={v}' for k, v in mo.items()) or 'default'
